@@ -198,6 +198,7 @@ func (sdl *v2) Manifest() (manifest.Manifest, error) {
 			msvc := &manifest.Service{
 				Name:      svcName,
 				Image:     svc.Image,
+				Command:   svc.Command,
 				Args:      svc.Args,
 				Env:       svc.Env,
 				Resources: compute.Resources.toResourceUnits(),
